@@ -2,7 +2,12 @@ package pkg
 
 import (
 	"fmt"
+	"os"
+	"sort"
 	"strings"
+
+	"github.com/pkg/errors"
+	"github.com/tonistiigi/fsutil/types"
 )
 
 type Kind int
@@ -244,4 +249,99 @@ func badDefer(a int) int {
 
 func badConstOverflow(b byte) bool {
 	return b == 300
+}
+
+// ---- state transformers, struct slices, closures
+
+type ent struct {
+	key string
+	n   int
+}
+
+type tab struct {
+	ents []ent
+	hits int
+}
+
+func (t *tab) okPut(key string, fi os.FileInfo) error {
+	if t.ents == nil {
+		t.ents = make([]ent, 1, 4)
+	}
+	i := sort.Search(len(t.ents), func(i int) bool {
+		return t.ents[i].key >= key
+	})
+	if i < len(t.ents) && t.ents[i].key == key {
+		t.ents[i].n = t.ents[i].n + 1
+		t.hits++
+		return nil
+	}
+	if fi.IsDir() {
+		return errors.Errorf("dir %q", key)
+	}
+	t.ents = append(t.ents[:i], ent{key: key})
+	return nil
+}
+
+func (t *tab) badClosureWrites(key string) int {
+	n := 0
+	i := sort.Search(len(t.ents), func(i int) bool {
+		n++
+		return t.ents[i].key >= key
+	})
+	return i + n
+}
+
+func (t *tab) badLoopOnState() int {
+	n := 0
+	for i := 0; i < len(t.ents); i++ {
+		n += t.ents[i].n
+	}
+	return n
+}
+
+// ---- maps used as sets, type assertion
+
+type seen struct {
+	names map[string]struct{}
+}
+
+func (v *seen) okSeen(name string, fi os.FileInfo, forget bool) (bool, error) {
+	if v.names == nil {
+		v.names = make(map[string]struct{})
+	}
+	st, ok := fi.Sys().(*types.Stat)
+	if !ok {
+		return false, errors.New("no stat")
+	}
+	if forget {
+		delete(v.names, name)
+		return false, nil
+	}
+	if _, ok := v.names[st.Linkname]; ok {
+		return true, nil
+	}
+	if fi.Mode()&os.ModeDir == 0 {
+		v.names[name] = struct{}{}
+	}
+	return false, nil
+}
+
+func (v *seen) badLenOfMap() int {
+	return len(v.names)
+}
+
+func (v *seen) badRangeOverMap() int {
+	n := 0
+	for k := range v.names {
+		n += len(k)
+	}
+	return n
+}
+
+func (v *seen) badUseOfFailedAssertion(fi os.FileInfo) int {
+	st, ok := fi.Sys().(*types.Stat)
+	if !ok {
+		return len(st.Path)
+	}
+	return 0
 }
